@@ -523,7 +523,7 @@ def av1_sequence_header_spec():
         "seq_profile": ("H", [0, 1, 2]), "reduced_still_picture_header": ("H", [0, 1]),
         "timing_info_present_flag": ("T", [0, 1]), "equal_picture_interval": ("T", [0, 1]), "decoder_model_info_present_flag": ("T", [0, 1]),
         "buffer_delay_length_minus_1": ("T", [0, 4]), "initial_display_delay_present_flag": ("T", [0, 1]), "operating_points_cnt_minus_1": ("T", [0, 1]),
-        "seq_level_idx": ("T", [0, 8]), "seq_level_idx_reduced": ("T", [5]), "seq_tier": ("T", [1]), "decoder_model_present_for_this_op": ("T", [0, 1]),
+        "seq_level_idx": ("T", [0, 7, 8]), "seq_level_idx_reduced": ("T", [5]), "seq_tier": ("T", [1]), "decoder_model_present_for_this_op": ("T", [0, 1]),
         "initial_display_delay_present_for_this_op": ("T", [0, 1]),
         "frame_width_bits_minus_1": ("F", [0, 15]), "frame_height_bits_minus_1": ("F", [3, 9]), "frame_id_numbers_present_flag": ("F", [0, 1]),
         "enable_order_hint": ("D", [0, 1]), "seq_choose_screen_content_tools": ("D", [0, 1]), "seq_force_screen_content_tools": ("D", [0, 1]),
